@@ -65,7 +65,27 @@ def gen_cases(rng, tier):
         st = STRATS[i % 5] if rng.random() < 0.6 else "merge"
         force = rng.choice(FORCES) if st == "merge" else []
         cases.append({"strategy": st, "force": force, "feats": [gen_feat(rng) for _ in range(rng.choice([2, 3, 4, 5, 6, 8]))]})
+    # the GTF importer has its own copy of the dispatch: colliding gene/transcript lines, inference off
+    for i in range(nrand // 3):
+        st = STRATS[i % 5]
+        force = rng.choice(FORCES) if st == "merge" else []
+        cases.append({"fmt": "gtf", "strategy": st, "force": force,
+                      "feats": [gen_gtf_feat(rng) for _ in range(rng.choice([2, 3, 4, 5, 6]))]})
     return cases
+
+
+def gen_gtf_feat(rng):
+    t = rng.choice(["gene", "gene", "transcript", "exon"])
+    g = rng.choice(["G1", "G1", "G2", "G1_1"])
+    tr = rng.choice(["T1", "T1", "T2"])
+    attrs = [["gene_id", [g]]]
+    if t != "gene":
+        attrs.append(["transcript_id", [tr]])
+    if rng.random() < 0.5:
+        attrs.append(["note", sorted(set(rng.choice(["x", "y", "z"]) for _ in range(rng.choice([1, 2]))))])
+    s = rng.choice([1, 1, 20])
+    return imp.mkfeat(seqid="chr1", source=rng.choice(["s1", "s1", "s2"]), type_=t, s=s, e=s + rng.choice([9, 9, 30]),
+                      strand=rng.choice(["+", "+", "-"]), attrs=attrs)
 
 
 def valid_case(c):
@@ -78,7 +98,7 @@ def valid_case(c):
                 return False
             if any(not isinstance(v, str) or not v for _, vs in f["attrs"] for v in vs) or any(not vs for _, vs in f["attrs"]):
                 return False
-            if any(len(vs) != 1 for k, vs in f["attrs"] if k == "ID"):
+            if any(len(vs) != 1 for k, vs in f["attrs"] if k in ("ID", "gene_id", "transcript_id")):
                 return False
             if f["s"] is None or f["e"] is None or f["s"] < 1 or f["e"] < f["s"]:
                 return False
@@ -105,7 +125,11 @@ def shrinks(c):
 
 
 def run_impl(c):
-    st, db = imp.run_create(c["feats"], merge_strategy=c["strategy"], force_merge_fields=list(c["force"]) or None)
+    if c.get("fmt") == "gtf":
+        st, db = imp.run_create(c["feats"], fmt="gtf", merge_strategy=c["strategy"], disable_infer_genes=True,
+                                disable_infer_transcripts=True, force_merge_fields=list(c["force"]) or None)
+    else:
+        st, db = imp.run_create(c["feats"], merge_strategy=c["strategy"], force_merge_fields=list(c["force"]) or None)
     if st == "err":
         return {"tables": ["err", db]}
     t = imp.dump_tables(db.conn)
@@ -115,16 +139,20 @@ def run_impl(c):
 
 
 def coq_case(c, o):
-    return "Case %s %s %s %s" % (imp.STRAT[c["strategy"]], L.lst([imp.FIELD[f] for f in c["force"]], "field"),
+    return "%s %s %s %s %s" % ("CaseGtf" if c.get("fmt") == "gtf" else "Case", imp.STRAT[c["strategy"]], L.lst([imp.FIELD[f] for f in c["force"]], "field"),
                                  L.lst([imp.coq_row(f) for f in c["feats"]], "row"), imp.res_tables(o["tables"]))
 
 
 def _ids(c):
+    if c.get("fmt") == "gtf":
+        return [dict(f["attrs"]).get({"gene": "gene_id", "transcript": "transcript_id"}.get(f["type"], "-"), [None])[0]
+                for f in c["feats"]]
     return [dict(f["attrs"]).get("ID", [None])[0] for f in c["feats"]]
 
 
 def labels(c, o):
     yield "strategy=" + c["strategy"]
+    yield "importer=" + c.get("fmt", "gff3")
     yield "force=" + ",".join(c["force"]) if c["force"] else "force=none"
     ids = [i for i in _ids(c) if i]
     yield "collisions=%d" % min(len(ids) - len(set(ids)), 4)
